@@ -1,6 +1,7 @@
 import AidlVerif.Props.LrCompleteCert
 import AidlVerif.Props.LrCompleteDriver
 import AidlVerif.Props.ParseTerm
+import AidlVerif.Props.LrHist
 
 /-!
 # C03, the other half — for every text: well-formed under the grammar ⇒ accepted, no error recovery
@@ -77,5 +78,64 @@ theorem wellformed_accepted (env : Env) (id text : String) (hE : EnvOk env text.
   rcases hc with hstop | ⟨v, hv, hrec⟩
   · exact absurd hstop (finishE_stop env id _ _ r hr')
   · exact ⟨r, v, hr, hv, hrec⟩
+
+/-! ### exactness on the text's own tokens -/
+
+def errColCheck (T : Tables) : Bool :=
+  (List.range T.action.size).all fun q =>
+    match asReduce (errorAction T q) with
+    | some p => match T.prods[p]? with
+      | some prod => !prod.accept
+      | none => true
+    | none => true
+
+theorem errColOk_of_check (T : Tables) (h : errColCheck T = true) : LrHist.ErrColOk T := by
+  intro q p prod hr hp
+  have hq : q < T.action.size := by
+    have hne : errorAction T q ≠ 0 := LrComplete.asReduce_ne hr
+    unfold errorAction at hne
+    exact (LrSafe.actionAt_ne_zero T hne).choose_spec.2.1
+  have := (List.all_eq_true.mp h) q (List.mem_range.mpr hq)
+  simp only [hr, hp, Bool.not_eq_true'] at this
+  exact this
+
+set_option maxRecDepth 1000000 in
+theorem errCol_run : LrHist.ErrColOk Driver.Parse.tables := errColOk_of_check _ (by decide +kernel)
+
+/-- **Reported free of syntax errors ⇒ the text is well-formed under the grammar** (every text):
+    if the model's `add_content` returns a tree and no Error diagnostic, the token sequence OF THE TEXT
+    is derivable from the accepting production. -/
+theorem clean_tree_derives (env : Env) (id text : String) (hE : EnvOk env text.toList) (w : List Nat)
+    (hl : lexColsOf Driver.Parse.tables (text.toList.length + 1) text.toList 0 = some w)
+    (r : FileResult) (h : addContentE Driver.Parse.tables env id text = .ok r)
+    (ht : r.ast.isSome = true) (hno : ¬ Typed.hasError r.diags) : Derives Driver.Parse.tables w := by
+  have h' := h
+  unfold addContentE at h'
+  obtain ⟨⟨v, hv⟩, hd⟩ := ParseTyped.finishE_tree env id _ _ r h' ht
+  have h2 := LrTyped.parse_end_ok Driver.Parse.tables LrSafe.cert LrTyped.tt env
+    (LrSafe.certFacts _ _ LrSafe.cert_ok) ParseTyped.tyFacts_run text.toList (parseFuel text)
+  rw [hv] at h2
+  have hrec : (parseLoop Driver.Parse.tables env { input := text.toList } (parseFuel text)).1.recovered = false := by
+    cases hr : (parseLoop Driver.Parse.tables env { input := text.toList } (parseFuel text)).1.recovered with
+    | false => rfl
+    | true => exact absurd (by rw [hd]; exact h2.2 hr) hno
+  have hh := LrHist.hist_is_text Driver.Parse.tables env errCol_run text.toList w (parseFuel text) v
+    (lexColsOf_sound _ _ _ _ _ hl) hv hrec
+  have hder := ParseSound.accepted_derives_run env text (parseFuel text) v hv hrec
+  rw [hh] at hder
+  exact hder
+
+/-- **Failure is never silent, in terms of the grammar** (every text that lexes): if the token
+    sequence of the text is NOT derivable from the accepting production, the result of the model's
+    `add_content` carries an Error diagnostic. -/
+theorem malformed_reports_error (env : Env) (id text : String) (hE : EnvOk env text.toList) (w : List Nat)
+    (hl : lexColsOf Driver.Parse.tables (text.toList.length + 1) text.toList 0 = some w)
+    (hnd : ¬ Derives Driver.Parse.tables w)
+    (r : FileResult) (h : addContentE Driver.Parse.tables env id text = .ok r) : Typed.hasError r.diags := by
+  apply Classical.byContradiction
+  intro hno
+  cases hast : r.ast with
+  | none => exact hno (ParseTyped.never_silent env id text hE r h hast)
+  | some a => exact hnd (clean_tree_derives env id text hE w hl r h (by rw [hast]; rfl) hno)
 
 end Aidl.Props.C03Complete
